@@ -89,12 +89,16 @@ class ItemTransform(Module):
                 value = getattr(data, field.name)
                 if not self.ignore_meta or field.name != "meta":
                     value = self._apply_all(value)
+                else:
+                    value = self._maybe_copy(value)
                 setattr(output, field.name, value)
         elif isinstance(data, Mapping):
             output = {}
             for k, v in data.items():
                 if not self.ignore_meta or k != "meta":
                     v = self._apply_all(v)
+                else:
+                    v = self._maybe_copy(v)
                 output[k] = v
         elif isinstance(data, tuple):
             output = tuple(self._apply_all(d) for d in data)
